@@ -59,6 +59,20 @@ SRC_IOPORT = '''
 class IOPort(_Port):
     kind = 'IOPort'
 '''
+SRC_IOPORT_SUBCLASS = '''
+import mido.ports as _mp
+class IOPort(_mp.IOPort):
+    """A native duplex port written on top of mido's wrapper class (takes a name, opens one handle)."""
+    kind = 'IOPort'
+    def __init__(self, name=None, **kwargs):
+        self.name = name
+        self.kwargs = dict(kwargs)
+        self._lock = _mp.DummyLock()
+        self.closed = False
+        _rec.EVENTS.append((self.kind, name, dict(kwargs)))
+    def _close(self):
+        pass
+'''
 SRC_DEVICES = '''
 DEVICES = {devices!r}
 def get_devices(**kwargs):
@@ -112,7 +126,7 @@ def run_case(case):
     del EVENTS[:]
     src = SRC.format(recmod='c20_recorder_alias')
     if case['native_ioport']:
-        src += SRC_IOPORT
+        src += SRC_IOPORT_SUBCLASS if case.get('native_subclass') else SRC_IOPORT
     devs = case.get('devices', devices_default())
     if case['has_devices']:
         src += SRC_DEVICES.format(devices=devs)
@@ -399,6 +413,10 @@ def grid_shard(rec, shard):
                     c = dict(case)
                     c['prelude'] = pre
                     rec.check(c, distinct=True, sample=False, classes=('history',))
+            if case['native_ioport'] and case['fn'] == 'open_ioport' and i % 2 == 1:
+                c = dict(case)
+                c['native_subclass'] = True
+                rec.check(c, distinct=True, sample=False, classes=('native-ioport-derived-from-mido',))
             if case['name_via'] == 'explicit' and i % 2 == 0:
                 c = dict(case)
                 c['decoy_env'] = True
